@@ -135,14 +135,20 @@ class FixedSizeSample(base.MergeableMetric, base.HasAsAggFn):
     # TODO: b/370053191 - For efficiency, sample from the combined reservoir
     # in one-shot.
     result = []
+    # Draws from copies: the operand is never modified and the receiver only
+    # once the merged reservoir is complete.
+    reservoir_orig = list(self._reservoir)
     num_samples_orig = self._num_samples_reviewed
-    # Copies the reservoir of the operand, only the receiver can be modified.
     reservoir_new = list(other.reservoir)
     num_samples_new = other.num_samples_reviewed
-    while len(result) < self.max_size and num_samples_orig + num_samples_new:
+    while len(result) < self.max_size and (reservoir_orig or reservoir_new):
       thr_from_orig = num_samples_orig / (num_samples_orig + num_samples_new)
-      if self._rng.uniform() < thr_from_orig:
-        sample = self._reservoir.pop(self._rng.integers(len(self._reservoir)))
+      from_orig = self._rng.uniform() < thr_from_orig
+      # A reservoir holds at most its own max_size of the samples it reviewed:
+      # once a side is used up (e.g., a sampler with a smaller max_size), the
+      # remaining samples come from the other side.
+      if reservoir_orig and (from_orig or not reservoir_new):
+        sample = reservoir_orig.pop(self._rng.integers(len(reservoir_orig)))
         num_samples_orig -= 1
       else:
         sample = reservoir_new.pop(self._rng.integers(len(reservoir_new)))
